@@ -94,7 +94,7 @@ def h_exit_flavour(z: int, kind: int, beh: int, raises: bool):
                     if kind == 0:
                         stack.push(W.fn("exit", exit_impl, flavour))
                     else:
-                        stack.callback(W.fn("cb", cb_impl, flavour), "arg", "arg2")
+                        stack.callback(W.fn("cb", cb_impl, flavour), "arg", "arg2", kw="kw-value", other=None)
                     if raises:
                         raise boom
                 return "ok"
@@ -114,6 +114,10 @@ def h_exit_flavour(z: int, kind: int, beh: int, raises: bool):
         ok = fail("ExitStack:exit-callback-behaves-differently-under-flavour", (ff, r0, r1, l0, l1))
     if len(l1) < 2:
         ok = fail("ExitStack:exit-callback-never-ran", (ff, r1)) and ok
+    for l in (l0, l1):
+        for e in l:
+            if type(e) is tuple and e[0] == "callback" and (e[1] != ("arg", "arg2") or e[2] != ("kw", "other")):
+                ok = fail("ExitStack:callback-arguments-not-forwarded", e) and ok
     return finish(ok, ff != "def", ("exit_flavour", ff, kind, beh, bool(raises)))
 
 
@@ -322,7 +326,7 @@ GRID = {
 }
 
 TOOLS_FN = ["filter", "filterfalse", "takewhile", "dropwhile", "accumulate_f", "accumulate_f_init", "iter_sentinel", "starmap"]
-TOOLS_NOFN = ["filter_none", "filterfalse_none", "pairwise", "cycle", "enumerate", "batched", "islice"]
+TOOLS_NOFN = ["filter_none", "filterfalse_none", "pairwise", "cycle", "enumerate", "batched", "islice", "scoped_twice"]
 AGGS_FN = ["min", "max", "sorted", "nlargest", "nsmallest", "reduce"]
 AGGS_NOFN = ["all", "any", "list", "tuple"]
 
